@@ -129,6 +129,7 @@ def _check_transform_path(ctx, ex, p, drv, b, first=True):
         return
     ok_alloc = arr.init[0] == "zeros" and arr.shape is not None and len(arr.shape) == 1 and nf_equal(lift(arr.shape[0]), n)
     ctx.check(ok_alloc, rule, "scores|alloc", drv.loc(arr.node), "scores is zeros(n): 0 outside the scored positions", found=f"{arr.init[0]} shape {arr.shape}")
+    ctx.check(arr.dtype == "float", rule, "scores|dtype", drv.loc(arr.node), "the score vector is float by construction, whatever the dtype of the data (an integer-typed vector truncates the scores)", found=f"dtype {arr.dtype or 'taken from an argument'}", expected="float")
     if len(arr.stores) != 1:
         ctx.violation(rule, "scores|store", drv.loc(), f"{len(arr.stores)} stores into the score vector (expected one)")
         return
